@@ -303,7 +303,12 @@ def run(ck):
     b = ck.build('plain')
     ck.gen(['gen_cop', 'gen_signals'])
     sig = read_signals()
-    ck.prove()
+    proved = ck.prove()
+    if ck.thorough and proved:
+        rc, o, e = vlib.sh(['coqchk', '-silent', '-o', '-Q', 'NV', 'NV', 'NV.Props.Properties_C16'], cwd=vlib.COQ, timeout=1500)
+        ck.extra['coqchk'] = 'ok' if rc == 0 else 'FAILED rc=%s %s' % (rc, (o + e)[-400:])
+        if rc != 0:
+            ck.proof['broken'].append('coqchk NV.Props.Properties_C16')
     ref = ck.nvref('c16')
     K = 4 if ck.thorough else 2
     env0 = run_matrix(ck, b, ref, K, sig['nano_vm_ignores_sigpipe'])
